@@ -136,8 +136,15 @@ func (s *simpleStrategy) replicaMap(tokenRing *tokenRing) tokenRingReplicas {
 	tokens := tokenRing.tokens
 	ring := make(tokenRingReplicas, len(tokens))
 
+	// the replication factor comes from the schema tables; there are never more
+	// replicas than hosts
+	maxReplicas := s.rf
+	if maxReplicas > len(tokenRing.hosts) {
+		maxReplicas = len(tokenRing.hosts)
+	}
+
 	for i, th := range tokens {
-		replicas := make([]*HostInfo, 0, s.rf)
+		replicas := make([]*HostInfo, 0, maxReplicas)
 		seen := make(map[*HostInfo]bool)
 
 		for j := 0; j < len(tokens) && len(replicas) < s.rf; j++ {
@@ -207,9 +214,15 @@ func (n *networkTopology) replicaMap(tokenRing *tokenRing) tokenRingReplicas {
 	tokens := tokenRing.tokens
 	replicaRing := make(tokenRingReplicas, 0, len(tokens))
 
+	// the replication factors come from the schema tables; there are never more
+	// replicas than hosts (and their sum must not overflow)
 	var totalRF int
 	for _, rf := range n.dcs {
 		totalRF += rf
+		if totalRF > len(tokenRing.hosts) || totalRF < 0 {
+			totalRF = len(tokenRing.hosts)
+			break
+		}
 	}
 
 	for i, th := range tokenRing.tokens {
